@@ -235,3 +235,9 @@ PARS = "gbasis/parsers.py"
 M("gbs-rows-break", PARS, "                except AttributeError:\n                    continue\n", "                except AttributeError:\n                    break\n", "C18")
 M("nw-rows-prefix", PARS, '        exps_coeffs = exps_coeffs.split("\\n")\n', '        exps_coeffs = exps_coeffs.split("\\n")[:-1]\n', "C18")
 OK("nw-rows-splitlines", PARS, '        exps_coeffs = exps_coeffs.split("\\n")\n', '        exps_coeffs = exps_coeffs.splitlines()\n', "C18")
+TWO = "gbasis/integrals/_two_elec_int.py"
+_ALLS_OLD = '    norm_a = ((2 * exps_a / np.pi) ** (3 / 4)).reshape(1, 1, 1, -1)\n    integrals = np.tensordot(integrals * norm_a, coeffs_a, (3, 0))\n\n    norm_c = ((2 * exps_c / np.pi) ** (3 / 4)).reshape(1, 1, -1, 1)\n    integrals = np.tensordot(integrals * norm_c, coeffs_c, (2, 0))\n\n    norm_b = ((2 * exps_b / np.pi) ** (3 / 4)).reshape(1, -1, 1, 1)\n    integrals = np.tensordot(integrals * norm_b, coeffs_b, (1, 0))\n\n    norm_d = ((2 * exps_d / np.pi) ** (3 / 4)).reshape(-1, 1, 1, 1)\n    integrals = np.tensordot(integrals * norm_d, coeffs_d, (0, 0))\n\n    integrals = np.transpose(integrals, (0, 2, 1, 3))\n'
+_ALLS_EINSUM = '    norm_a = (2 * exps_a / np.pi) ** (3 / 4)\n    norm_b = (2 * exps_b / np.pi) ** (3 / 4)\n    norm_c = (2 * exps_c / np.pi) ** (3 / 4)\n    norm_d = (2 * exps_d / np.pi) ** (3 / 4)\n    integrals = np.einsum(\n        "dbca,ai,bj,ck,dl->ijkl", integrals * norm_a * norm_b * norm_c * norm_d, coeffs_a, coeffs_b, coeffs_c, coeffs_d\n    )\n'
+OK("alls-einsum-refactor", TWO, _ALLS_OLD, _ALLS_EINSUM, "C04,C13,C11,C12,C16,C19")
+M("alls-einsum-swapped", TWO, _ALLS_OLD, _ALLS_EINSUM.replace("->ijkl", "->ikjl"), "C04,C13")
+M("alls-einsum-wrong-coeffs", TWO, _ALLS_OLD, _ALLS_EINSUM.replace("coeffs_a, coeffs_b, coeffs_c", "coeffs_a, coeffs_c, coeffs_b"), "C04")
